@@ -199,6 +199,21 @@ fn plant_cache_faults(r: &mut Rng, cache_root: &Path, repo_id: &str, st: &StoreS
             done.push(format!("foreign {}", crate::store::ft_name(tpe)));
         }
     }
+    // cached (tree) packs cut short: ranged reads beyond the end of the cache file have to fall back to the repository
+    if let Ok(dirs) = std::fs::read_dir(base.join("data")) {
+        for d in dirs.flatten() {
+            for f in std::fs::read_dir(d.path()).into_iter().flatten().flatten() {
+                if r.chance(1, 3) {
+                    if let Ok(b) = std::fs::read(f.path()) {
+                        let keep = *r.pick(&[0usize, 10, 16, b.len() / 2, b.len().saturating_sub(1)]);
+                        if keep < b.len() && std::fs::write(f.path(), &b[..keep]).is_ok() {
+                            done.push("truncated cached pack".to_string());
+                        }
+                    }
+                }
+            }
+        }
+    }
     // files of another repository id
     let other = cache_root.join("ff".repeat(32)).join("snapshots/ab");
     let _ = std::fs::create_dir_all(&other);
@@ -357,7 +372,7 @@ pub fn run(ctx: &Ctx) -> (Report, Meta) {
     let rep = run_cases(ctx, ctx.tier.pick(60, 2500), &history);
     let meta = Meta {
         level: "exploration",
-        rule: "case = history of 4-9 commands (backup of an evolving tree, forget, prune incl. instant-delete and repack-all, merge) executed alternately through a handle with a private cache directory and a handle without cache on the SAME store, while a twin repository (same config and key) receives the same history never cached. After every command all read-type operations (snapshot listing, by-id and by-prefix lookups incl. ids removed meanwhile, direct get_file by id, `latest`, check, ls+dump of every snapshot) run through BOTH handles and must return equal values or both fail; after the listing the cache directory may hold no snapshot/index id the store does not list and no file of another size. Truncated copies, entries for ids the repository never had, temp leftovers, non-id names and another repository's directory are planted in the cache. At the end the semantic content (snapshots, indexed blob set, marked packs, snapshot contents) must equal the twin's. distinct_nontrivial = distinct (command kind, handle)".to_string(),
+        rule: "case = history of 4-9 commands (backup of an evolving tree, forget, prune incl. instant-delete and repack-all, merge) executed alternately through a handle with a private cache directory and a handle without cache on the SAME store, while a twin repository (same config and key) receives the same history never cached. After every command all read-type operations (snapshot listing, by-id and by-prefix lookups incl. ids removed meanwhile, direct get_file by id, `latest`, check, ls+dump of every snapshot) run through BOTH handles and must return equal values or both fail; after the listing the cache directory may hold no snapshot/index id the store does not list and no file of another size. Truncated copies (snapshot and index files, and the tree packs the cache holds), entries for ids the repository never had, temp leftovers, non-id names and another repository's directory are planted in the cache. At the end the semantic content (snapshots, indexed blob set, marked packs, snapshot contents) must equal the twin's. distinct_nontrivial = distinct (command kind, handle)".to_string(),
         exhaustive: false,
         assumptions: vec!["both handles live in one process; 'another process' is modelled by the uncached handle changing the store between operations of the cached one".to_string()],
     };
